@@ -1,7 +1,7 @@
 //! C16 — static file serving stays inside its root and answers Range / conditional requests exactly.
 //!
-//! Obs: `actix_files::Files` mounted five times (default/async reads, hidden files + sync reads,
-//! index file, directory listing, root mount) in a real `App`, driven through the `Service`
+//! Obs: `actix_files::Files` mounted eight times (default/async reads, hidden files + sync reads,
+//! index file, directory listing, three `try_compressed` combinations, root mount) in a real `App`, driven through the `Service`
 //! interface on a temp tree created per shard.  Every file's content is a unique id pattern
 //! (16-byte records `iiii:oooooooooo\n`), so any body identifies the file and offset it came from;
 //! canary files, a sibling directory `rootx/` (sharing the root's name prefix) and same-named
@@ -15,6 +15,10 @@
 //!    well-formed `Content-Range: bytes s-e/len` with s ≤ e < len, body == file[s..=e], declared
 //!    body size == e−s+1 == streamed bytes; a 416 `bytes */len` and an empty body;
 //!  * cond: `refmodel::range::eval_cond` (RFC 7232 §6) ⇒ 412 / 304 (empty body) / the normal answer;
+//!  * pre-compressed variants (`try_compressed` mounts): `Content-Encoding` may only appear when the
+//!    body is exactly the in-root `<name>.br/.gz/.zst` sibling of the denoted file for a coding the
+//!    request's `Accept-Encoding` accepts; look-alikes next to the root (`<root>.gz`, `rootx.gz`, …)
+//!    are canaries;
 //!  * never a panic, never a body stream error.
 
 use std::{
@@ -106,6 +110,20 @@ const INSIDE: &[(&str, u16, usize)] = &[
     ("x\\y.txt", 0x0a0e, 40),
     ("sp ace.txt", 0x0a0f, 40),
     ("sub/deep/index.html.bak", 0x0a10, 40),
+    // pre-compressed variants (the server never decompresses: the content is an id pattern too)
+    ("a.txt.gz", 0x0b01, 30),
+    ("a.txt.br", 0x0b02, 31),
+    ("a.txt.zst", 0x0b03, 32),
+    ("sub/b.txt.gz", 0x0b04, 33),
+    ("sub/index.html.br", 0x0b05, 34),
+    ("big.bin.gz", 0x0b06, 70_000),
+    // a variant whose plain file does not exist
+    ("only.txt.gz", 0x0b07, 35),
+    (".hidden.gz", 0x0b08, 36),
+    ("empty.bin.zst", 0x0b09, 0),
+    // files named like `<directory>.<ext>`: never a variant of anything
+    ("sub.gz", 0x0b0a, 37),
+    ("emptydir.br", 0x0b0b, 38),
 ];
 
 /// decoys and canaries outside the root (relative to the base directory that contains `root/`)
@@ -118,6 +136,20 @@ const OUTSIDE: &[(&str, u16, usize)] = &[
     ("index.html", 0xc006, 40),
     (".hidden", 0xc007, 40),
     ("rootx/sub/b.txt", 0xc008, 40),
+    // look-alikes of pre-compressed variants next to the root and next to the decoys
+    ("root.gz", 0xc101, 40),
+    ("root.br", 0xc102, 41),
+    ("root.zst", 0xc103, 42),
+    ("rootx.gz", 0xc104, 43),
+    ("CANARY.txt.gz", 0xc105, 44),
+    ("a.txt.gz", 0xc106, 30),
+    ("index.html.gz", 0xc107, 45),
+    ("index.html.br", 0xc108, 34),
+    ("sub/b.txt.gz", 0xc109, 33),
+    ("rootx/a.txt.gz", 0xc10a, 30),
+    ("rootx/CANARY.txt.gz", 0xc10b, 46),
+    (".hidden.gz", 0xc10c, 36),
+    ("sub.gz", 0xc10d, 37),
 ];
 
 impl Tree {
@@ -228,15 +260,33 @@ struct Mount {
     hidden: bool,
     index: Option<&'static str>,
     listing: bool,
+    /// `try_compressed()`: `<name>.br/.gz/.zst` is served instead when Accept-Encoding allows
+    compressed: bool,
 }
+
+const M_STATIC: usize = 0;
+const M_HID: usize = 1;
+const M_LIST: usize = 3;
+const M_CMP: usize = 4;
+const M_CIDX: usize = 5;
+const M_CHID: usize = 6;
+const M_ROOT: usize = 7;
+/// the mounts without `try_compressed`
+const PLAIN_MOUNTS: [usize; 5] = [0, 1, 2, 3, M_ROOT];
+
+/// (Content-Encoding token, file extension) of the pre-compressed variants, in no particular order
+const CODINGS: [(&str, &str); 3] = [("br", ".br"), ("gzip", ".gz"), ("zstd", ".zst")];
 
 /// in registration order; the root mount must be last (it shadows everything after it)
 const MOUNTS: &[Mount] = &[
-    Mount { prefix: "/static", hidden: false, index: None, listing: false },
-    Mount { prefix: "/hid", hidden: true, index: None, listing: false },
-    Mount { prefix: "/idx", hidden: false, index: Some("index.html"), listing: false },
-    Mount { prefix: "/list", hidden: false, index: None, listing: true },
-    Mount { prefix: "", hidden: false, index: None, listing: false },
+    Mount { prefix: "/static", hidden: false, index: None, listing: false, compressed: false },
+    Mount { prefix: "/hid", hidden: true, index: None, listing: false, compressed: false },
+    Mount { prefix: "/idx", hidden: false, index: Some("index.html"), listing: false, compressed: false },
+    Mount { prefix: "/list", hidden: false, index: None, listing: true, compressed: false },
+    Mount { prefix: "/cmp", hidden: false, index: None, listing: false, compressed: true },
+    Mount { prefix: "/cidx", hidden: false, index: Some("index.html"), listing: false, compressed: true },
+    Mount { prefix: "/chid", hidden: true, index: None, listing: true, compressed: true },
+    Mount { prefix: "", hidden: false, index: None, listing: false, compressed: false },
 ];
 
 async fn make_app(
@@ -249,6 +299,9 @@ async fn make_app(
             .service(Files::new("/hid", &root).use_hidden_files().read_mode_threshold(100_000))
             .service(Files::new("/idx", &root).index_file("index.html"))
             .service(Files::new("/list", &root).show_files_listing())
+            .service(Files::new("/cmp", &root).try_compressed())
+            .service(Files::new("/cidx", &root).try_compressed().index_file("index.html"))
+            .service(Files::new("/chid", &root).try_compressed().use_hidden_files().show_files_listing())
             .service(Files::new("/", &root)),
     )
     .await
@@ -312,6 +365,13 @@ enum Expect {
 
 /// The path rules of DESIGN A.3, restated: which mount, and what the path denotes there.
 fn resolve(tree: &Tree, raw_path: &str) -> (usize, Expect) {
+    let (mi, e, _) = resolve_full(tree, raw_path);
+    (mi, e)
+}
+
+/// `resolve` plus, on a `try_compressed` mount, the in-root pre-compressed variants
+/// (coding, file index) of the file the path denotes (whether or not the plain file exists).
+fn resolve_full(tree: &Tree, raw_path: &str) -> (usize, Expect, Vec<(&'static str, usize)>) {
     let raw = raw_path.split('?').next().unwrap_or("");
     let p = router_decode(raw.as_bytes());
     let (mi, tail) = MOUNTS
@@ -332,23 +392,23 @@ fn resolve(tree: &Tree, raw_path: &str) -> (usize, Expect) {
     let m = &MOUNTS[mi];
     let dec = match files_decode(tail) {
         Some(d) => d,
-        None => return (mi, Expect::Reject("not-utf8")),
+        None => return (mi, Expect::Reject("not-utf8"), vec![]),
     };
     if dec.matches('/').count() != tail.matches('/').count() {
-        return (mi, Expect::Reject("encoded-slash"));
+        return (mi, Expect::Reject("encoded-slash"), vec![]);
     }
     let mut comps: Vec<String> = vec![];
     for seg in dec.split('/') {
         if seg == "." {
-            return (mi, Expect::Reject("dot"));
+            return (mi, Expect::Reject("dot"), vec![]);
         } else if seg == ".." {
             comps.pop();
         } else if seg.starts_with('.') && !m.hidden {
-            return (mi, Expect::Reject("hidden"));
+            return (mi, Expect::Reject("hidden"), vec![]);
         } else if seg.starts_with('*') {
-            return (mi, Expect::Reject("star"));
+            return (mi, Expect::Reject("star"), vec![]);
         } else if seg.ends_with(':') || seg.ends_with('<') || seg.ends_with('>') {
-            return (mi, Expect::Reject("bad-end"));
+            return (mi, Expect::Reject("bad-end"), vec![]);
         } else if seg.is_empty() {
             continue;
         } else {
@@ -356,15 +416,25 @@ fn resolve(tree: &Tree, raw_path: &str) -> (usize, Expect) {
         }
     }
     if comps.iter().any(|c| c.contains('\0')) {
-        return (mi, Expect::Missing);
+        return (mi, Expect::Missing, vec![]);
     }
+    // the file whose `<name>.<ext>` siblings count as its pre-compressed variants: the denoted
+    // path itself unless it is a directory (then its index file, if the mount has one)
+    let mut target: Option<Vec<String>> = None;
     let e = match tree.lookup(&comps) {
-        Node::File(i) => Expect::File(i),
-        Node::Missing => Expect::Missing,
+        Node::File(i) => {
+            target = Some(comps.clone());
+            Expect::File(i)
+        }
+        Node::Missing => {
+            target = Some(comps.clone());
+            Expect::Missing
+        }
         Node::Dir => {
             if let Some(ix) = m.index {
                 let mut c = comps.clone();
                 c.push(ix.to_string());
+                target = Some(c.clone());
                 match tree.lookup(&c) {
                     Node::File(i) => Expect::File(i),
                     _ => Expect::Missing,
@@ -376,7 +446,97 @@ fn resolve(tree: &Tree, raw_path: &str) -> (usize, Expect) {
             }
         }
     };
-    (mi, e)
+    let mut variants = vec![];
+    if m.compressed {
+        if let Some(t) = target.filter(|t| !t.is_empty()) {
+            for (coding, ext) in CODINGS {
+                let mut v = t.clone();
+                let last = v.pop().unwrap();
+                v.push(format!("{last}{ext}"));
+                if let Node::File(i) = tree.lookup(&v) {
+                    variants.push((coding, i));
+                }
+            }
+        }
+    }
+    (mi, e, variants)
+}
+
+#[derive(Clone, Copy, Debug, PartialEq, Eq)]
+enum Tri {
+    Yes,
+    No,
+    /// the header does not parse: what it means is unspecified
+    Unknown,
+}
+
+/// RFC 7231 §5.3.4: is `coding` acceptable to a request with this `Accept-Encoding`?
+/// (`identity` is acceptable unless refused explicitly or by `*;q=0`; any other coding needs to be
+/// listed, or covered by `*`, with a non-zero weight; no header at all accepts everything.)
+fn accepts(ae: Option<&str>, coding: &str) -> Tri {
+    let v = match ae {
+        None => return Tri::Yes,
+        Some(v) => v,
+    };
+    fn qvalue(s: &str) -> Option<bool> {
+        // qvalue = ( "0" [ "." 0*3DIGIT ] ) / ( "1" [ "." 0*3("0") ] ) → is it non-zero?
+        let (int, frac) = match s.split_once('.') {
+            Some((i, f)) => (i, f),
+            None => (s, ""),
+        };
+        if frac.len() > 3 || !frac.bytes().all(|b| b.is_ascii_digit()) {
+            return None;
+        }
+        match int {
+            "0" => Some(frac.bytes().any(|b| b != b'0')),
+            "1" if frac.bytes().all(|b| b == b'0') => Some(true),
+            _ => None,
+        }
+    }
+    let mut explicit: Option<bool> = None;
+    let mut star: Option<bool> = None;
+    for el in v.split(',') {
+        let el = el.trim_matches(|c| c == ' ' || c == '\t');
+        if el.is_empty() {
+            continue;
+        }
+        let mut parts = el.split(';');
+        let name = parts.next().unwrap_or("").trim().to_ascii_lowercase();
+        if name.is_empty() || !name.bytes().all(|b| b.is_ascii_alphanumeric() || b"!#$%&'*+-.^_`|~".contains(&b)) {
+            return Tri::Unknown;
+        }
+        let mut pos = true;
+        for p in parts {
+            match p.trim().split_once('=') {
+                Some((k, val)) if k.trim().eq_ignore_ascii_case("q") => match qvalue(val.trim()) {
+                    Some(nz) => pos = nz,
+                    None => return Tri::Unknown,
+                },
+                _ => return Tri::Unknown,
+            }
+        }
+        let name = if name == "x-gzip" { "gzip".to_string() } else { name };
+        let slot = if name == coding {
+            &mut explicit
+        } else if name == "*" {
+            &mut star
+        } else {
+            continue;
+        };
+        match *slot {
+            None => *slot = Some(pos),
+            Some(p) if p == pos => {}
+            Some(_) => return Tri::Unknown, // listed twice with contradicting weights
+        }
+    }
+    match (explicit, star) {
+        (Some(true), _) => Tri::Yes,
+        (Some(false), _) => Tri::No,
+        (None, Some(true)) => Tri::Yes,
+        (None, Some(false)) => Tri::No,
+        (None, None) if coding == "identity" => Tri::Yes,
+        (None, None) => Tri::No,
+    }
 }
 
 fn seg_class(tree: &Tree, seg: &str) -> &'static str {
@@ -469,6 +629,8 @@ struct Resp {
     etag: Option<String>,
     last_modified: Option<String>,
     accept_ranges: bool,
+    content_encoding: Vec<String>,
+    vary_accept_encoding: bool,
     /// declared body size: Some(n) for a sized body, None for none/stream
     size: Option<u64>,
     size_kind: &'static str,
@@ -550,6 +712,8 @@ where
     r.etag = h.get("etag").map(|v| String::from_utf8_lossy(v.as_bytes()).into_owned());
     r.last_modified = h.get("last-modified").map(|v| String::from_utf8_lossy(v.as_bytes()).into_owned());
     r.accept_ranges = h.get("accept-ranges").map(|v| v.as_bytes() == b"bytes").unwrap_or(false);
+    r.content_encoding = h.get_all("content-encoding").map(|v| String::from_utf8_lossy(v.as_bytes()).to_ascii_lowercase()).collect();
+    r.vary_accept_encoding = h.get_all("vary").any(|v| String::from_utf8_lossy(v.as_bytes()).to_ascii_lowercase().contains("accept-encoding"));
     let mut body = res.into_body();
     match body.size() {
         BodySize::None => r.size_kind = "none",
@@ -641,13 +805,23 @@ impl World {
     }
     /// substitute `{ETAG}` for the target of `case` (if it denotes a file)
     fn materialize(&self, c: &Case) -> Vec<(String, String)> {
-        let target = match resolve(&self.tree, &c.path).1 {
+        let (_, exp, variants) = resolve_full(&self.tree, &c.path);
+        let target = match exp {
             Expect::File(i) => Some(i),
             _ => None,
         };
         c.headers
             .iter()
             .map(|(n, v)| {
+                // `{ETAG.gz}` / `{ETAG.br}` / `{ETAG.zst}`: the entity-tag of that variant of the target
+                let mut v = v.clone();
+                for (coding, ext) in CODINGS {
+                    let ph = format!("{{ETAG{ext}}}");
+                    if v.contains(&ph) {
+                        let e = variants.iter().find(|(k, _)| *k == coding).map(|&(_, i)| self.etag_of(i)).unwrap_or("\"no-variant\"");
+                        v = v.replace(&ph, e);
+                    }
+                }
                 let v = if v.contains(ETAG) {
                     v.replace(ETAG, target.map(|i| self.etag_of(i)).unwrap_or("\"no-target\""))
                 } else {
@@ -702,25 +876,29 @@ fn listing_names(body: &str) -> Option<BTreeSet<String>> {
 /// Judge one observed case.  Returns the outcome label (for signatures/counters) or a violation.
 fn judge(w: &World, c: &Case, headers: &[(String, String)], obs: &Obs, rep: &mut Reporter) -> Result<String, Viol> {
     let tree = &w.tree;
-    let (mi, exp) = resolve(tree, &c.path);
+    let (mi, exp, variants) = resolve_full(tree, &c.path);
     let m = &MOUNTS[mi];
     let pclass = path_class(tree, &c.path, mi);
     let get = |name: &str| headers.iter().find(|(n, _)| n.eq_ignore_ascii_case(name)).map(|(_, v)| v.as_str());
     let range_hdr = get("range");
-    let file_len = match exp {
-        Expect::File(i) => Some(tree.files[i].content.len() as u64),
-        _ => None,
+    let ae = get("accept-encoding");
+    let mk_sig = |exp: &Expect, enc: &str| {
+        let file_len = match exp {
+            Expect::File(i) => Some(tree.files[*i].content.len() as u64),
+            _ => None,
+        };
+        format!(
+            "mount={} path={} len={} range={} cond={}{}",
+            if m.prefix.is_empty() { "/" } else { m.prefix },
+            pclass,
+            file_len.map(|l| l.to_string()).unwrap_or_else(|| "-".into()),
+            file_len.map(|l| eval_range(range_hdr, l).shape).unwrap_or_else(|| if range_hdr.is_some() { "n/a".into() } else { "absent".into() }),
+            c.label,
+            if enc.is_empty() { String::new() } else { format!(" enc={enc}") }
+        )
     };
-    let rv = file_len.map(|l| eval_range(range_hdr, l));
-    let base_sig = format!(
-        "mount={} path={} len={} range={} cond={}",
-        if m.prefix.is_empty() { "/" } else { m.prefix },
-        pclass,
-        file_len.map(|l| l.to_string()).unwrap_or_else(|| "-".into()),
-        rv.as_ref().map(|v| v.shape.clone()).unwrap_or_else(|| if range_hdr.is_some() { "n/a".into() } else { "absent".into() }),
-        c.label
-    );
-    let viol = |class: &'static str, detail: String| Viol { class, sig: base_sig.clone(), detail };
+    let sig0 = mk_sig(&exp, "");
+    let viol = |class: &'static str, detail: String| Viol { class, sig: sig0.clone(), detail };
 
     let r = match obs {
         Obs::Panic(msg) => {
@@ -763,11 +941,95 @@ fn judge(w: &World, c: &Case, headers: &[(String, String)], obs: &Obs, rep: &mut
     }
     rep.max("body_chunks", r.chunks);
 
+    // ---- Content-Encoding: only the pre-compressed branch of a `try_compressed` mount sets it, and
+    // then the representation is the in-root variant, not the plain file
+    let plain_exp = exp.clone();
+    let mut exp = exp;
+    let mut enc = "";
+    if !r.content_encoding.is_empty() {
+        let who_is_it = || {
+            let (s, e) = match (r.status, r.content_range.first().and_then(|v| parse_content_range(v))) {
+                (206, Some(ContentRange::Range(s, e, _))) => (s, Some(e)),
+                _ => (0, None),
+            };
+            identify(tree, r, s, e)
+        };
+        let cand = match r.content_encoding.as_slice() {
+            [one] if m.compressed => variants.iter().find(|(k, _)| k == one).copied(),
+            _ => None,
+        };
+        match cand {
+            Some((coding, vi)) => {
+                match accepts(ae, coding) {
+                    Tri::Yes => {}
+                    Tri::Unknown => rep.count("tolerated:variant_served_for_unparsable_accept_encoding", 1),
+                    Tri::No => {
+                        return Err(viol(
+                            "encoding",
+                            format!("GET {} {:?}: answered {} with Content-Encoding {coding}, a coding the request's Accept-Encoding does not accept", c.path, headers, r.status),
+                        ))
+                    }
+                }
+                exp = Expect::File(vi);
+                enc = coding;
+            }
+            None => {
+                let who = if matches!(r.status, 200 | 206) { who_is_it() } else { "-".into() };
+                let class = if who.contains("OUTSIDE") && !who.contains("root/") { "escape" } else { "encoding" };
+                return Err(viol(
+                    class,
+                    format!(
+                        "GET {} {:?}: answered {} with Content-Encoding {:?}, but the path (model: {:?}) has no such in-root pre-compressed variant on mount {:?} (variants: {:?}); body is of {who}",
+                        c.path,
+                        headers,
+                        r.status,
+                        r.content_encoding,
+                        plain_exp,
+                        m.prefix,
+                        variants.iter().map(|(k, i)| format!("{k}:{}", tree.files[*i].rel.join("/"))).collect::<Vec<_>>()
+                    ),
+                ));
+            }
+        }
+    }
+    let sig1 = mk_sig(&exp, enc);
+    let viol = |class: &'static str, detail: String| Viol { class, sig: sig1.clone(), detail };
+    let file_len = match exp {
+        Expect::File(i) => Some(tree.files[i].content.len() as u64),
+        _ => None,
+    };
+    let rv = file_len.map(|l| eval_range(range_hdr, l));
+    if m.compressed {
+        let acceptable: Vec<&str> = variants.iter().filter(|(k, _)| ae.is_some() && accepts(ae, k) == Tri::Yes).map(|(k, _)| *k).collect();
+        if !enc.is_empty() {
+            rep.count(&format!("compressed:variant_served:{enc}"), 1);
+            if !r.vary_accept_encoding {
+                rep.count("compressed:variant_without_vary", 1);
+            }
+            if matches!(plain_exp, Expect::Missing) {
+                rep.count("compressed:variant_served_plain_file_absent", 1);
+            }
+        } else if r.status < 400 || r.status == 412 || r.status == 416 {
+            if !acceptable.is_empty() {
+                let lab = c.label.split(',').find(|kv| kv.starts_with("ae=")).unwrap_or("ae=?");
+                rep.count(&format!("tolerated:plain_served_though_variant_acceptable:{lab}"), 1);
+            }
+            if accepts(ae, "identity") == Tri::No {
+                rep.count("tolerated:plain_served_though_identity_refused", 1);
+            }
+        } else if !acceptable.is_empty() && matches!(plain_exp, Expect::Missing) {
+            let lab = c.label.split(',').find(|kv| kv.starts_with("ae=")).unwrap_or("ae=?");
+            rep.count(&format!("tolerated:error_though_variant_acceptable:{lab}"), 1);
+        }
+    }
+
     // ---- directory listing
     if let (Expect::Listing(dir), 200) = (&exp, r.status) {
         let body = String::from_utf8_lossy(&r.head).into_owned();
         if !r.whole || !r.content_type.starts_with("text/html") {
-            return Err(viol("resolve", format!("GET {}: expected a listing of root/{}, got a 200 of type {:?}: {}", c.path, dir.join("/"), r.content_type, identify(tree, r, 0, None))));
+            let who = identify(tree, r, 0, None);
+            let class = if who.contains("OUTSIDE") && !who.contains("root/") { "escape" } else { "resolve" };
+            return Err(viol(class, format!("GET {}: expected a listing of root/{}, got a 200 of type {:?}: {who}", c.path, dir.join("/"), r.content_type)));
         }
         let names = listing_names(&body).unwrap_or_default();
         let want = tree.children(dir);
@@ -783,7 +1045,7 @@ fn judge(w: &World, c: &Case, headers: &[(String, String)], obs: &Obs, rep: &mut
     if r.status >= 400 && r.status != 412 && r.status != 416 {
         // an obs-text Range value cannot be read as a string: 400 is a fair answer to it
         let range_obs_text = range_hdr.map(|v| !latin1(v).iter().all(|&b| b == b'\t' || (32..127).contains(&b))).unwrap_or(false);
-        return match exp {
+        return match exp.clone() {
             Expect::File(_) if r.status == 400 && range_obs_text => {
                 rep.count("tolerated:400_for_obs_text_range", 1);
                 Ok("file:400-obs-text".into())
@@ -865,7 +1127,7 @@ fn judge(w: &World, c: &Case, headers: &[(String, String)], obs: &Obs, rep: &mut
                 rep.count(&format!("cond_deviation:rfc_{}_got_{}", cv.rfc, r.status), 1);
             }
             rep.count(&format!("cond:{}", r.status), 1);
-            Ok(format!("{}:rfc-{}", r.status, cv.rfc))
+            Ok(format!("{}:rfc-{}{}", r.status, cv.rfc, if enc.is_empty() { String::new() } else { format!(":enc-{enc}") }))
         }
         416 => {
             match r.content_range.as_slice() {
@@ -884,7 +1146,7 @@ fn judge(w: &World, c: &Case, headers: &[(String, String)], obs: &Obs, rep: &mut
             if cv.if_range_matches == Some(false) {
                 rep.count("if_range:mismatch_range_still_evaluated", 1);
             }
-            Ok(format!("416:{how}:rfc-{}", cv.rfc))
+            Ok(format!("416:{how}:rfc-{}{}", cv.rfc, if enc.is_empty() { String::new() } else { format!(":enc-{enc}") }))
         }
         200 => {
             if !cv.allow_normal {
@@ -914,7 +1176,7 @@ fn judge(w: &World, c: &Case, headers: &[(String, String)], obs: &Obs, rep: &mut
             if !r.accept_ranges {
                 rep.count("200_without_accept_ranges", 1);
             }
-            Ok(format!("200:{how}:rfc-{}", cv.rfc))
+            Ok(format!("200:{how}:rfc-{}{}", cv.rfc, if enc.is_empty() { String::new() } else { format!(":enc-{enc}") }))
         }
         206 => {
             if !cv.allow_normal {
@@ -952,7 +1214,7 @@ fn judge(w: &World, c: &Case, headers: &[(String, String)], obs: &Obs, rep: &mut
             if cv.rfc != "normal" {
                 rep.count(&format!("cond_deviation:rfc_{}_got_206", cv.rfc), 1);
             }
-            Ok(format!("206:{how}:rfc-{}", cv.rfc))
+            Ok(format!("206:{how}:rfc-{}{}", cv.rfc, if enc.is_empty() { String::new() } else { format!(":enc-{enc}") }))
         }
         _ => unreachable!(),
     }
@@ -1070,6 +1332,40 @@ fn if_range_opts() -> Vec<(&'static str, Option<String>)> {
     ]
 }
 
+/// Accept-Encoding variants (label, value)
+fn ae_opts() -> Vec<(&'static str, Option<&'static str>)> {
+    vec![
+        ("none", None),
+        ("gzip", Some("gzip")),
+        ("br", Some("br")),
+        ("zstd", Some("zstd")),
+        ("star", Some("*")),
+        ("gzip-q0", Some("gzip;q=0")),
+        ("several", Some("br;q=0.5, gzip;q=0.8, zstd;q=0.1")),
+        ("all-equal", Some("gzip, br, zstd")),
+        ("gzip-q0-star", Some("gzip;q=0, *")),
+        ("star-q0", Some("*;q=0")),
+        ("identity-q0-gzip", Some("identity;q=0, gzip")),
+        ("identity", Some("identity")),
+        ("deflate", Some("deflate")),
+        ("upper", Some("GZIP")),
+        ("x-gzip", Some("x-gzip")),
+        ("empty", Some("")),
+        ("garbage", Some("gzip;q=abc")),
+        ("tiny-q", Some("zstd;q=0.001")),
+        ("only-star-positive", Some("br;q=0, gzip;q=0, *;q=0.5")),
+    ]
+}
+/// the labels of the reduced Accept-Encoding set used on the larger enumerations
+const AE_CORE: &[&str] = &["none", "gzip", "br", "star", "several", "gzip-q0", "star-q0"];
+
+/// segment alphabet of the pre-compressed phase: names with and without variants, names that only
+/// exist as look-alikes outside the root, and the segments that lead back to the root itself
+const SEGS_CMP: &[&str] = &[
+    "a.txt", "sub", "b.txt", "index.html", "only.txt", "big.bin", "empty.bin", "emptydir", "deep", "a.txt.gz", "sub.gz", "root", "root.gz", "rootx", "rootx.gz", "CANARY.txt",
+    "CANARY.txt.gz", "..", "%2e%2e", ".", "", "%2f", ".hidden", ".hidden.gz", "%00",
+];
+
 fn file_path(mount: &str, rel: &str) -> String {
     format!("{mount}/{rel}")
 }
@@ -1173,11 +1469,18 @@ fn random_case(w: &World, rng: &mut Rng) -> Case {
         }
     } else {
         let depth = rng.range(1, 5);
-        let segs: Vec<&str> = (0..depth).map(|_| *rng.pick(SEGS)).collect();
+        let alpha = if rng.chance(1, 3) { SEGS_CMP } else { SEGS };
+        let segs: Vec<&str> = (0..depth).map(|_| *rng.pick(alpha)).collect();
         path = format!("{mount}/{}", segs.join("/"));
         if rng.chance(1, 4) {
             headers.push(("Range".to_string(), random_range(rng, 10)));
         }
+    }
+    if rng.chance(1, 2) {
+        let aes = ae_opts();
+        let (lab, v) = &aes[rng.range(1, aes.len() - 1)];
+        headers.push(("Accept-Encoding".to_string(), v.unwrap().to_string()));
+        label = if label == "-" { format!("ae={lab}") } else { format!("{label},ae={lab}") };
     }
     Case { path, headers, label, phase: "random" }
 }
@@ -1243,7 +1546,7 @@ impl<'a> Runner<'a> {
                         };
                         // conditional headers enter the signature by which are present (their values
                         // show through the outcome), so the grid counts as diversity, not volume
-                        let present: Vec<&str> = c.label.split(',').filter(|kv| !kv.ends_with("=none") && *kv != "-").map(|kv| kv.split('=').next().unwrap_or("")).collect();
+                        let present: Vec<&str> = c.label.split(',').filter(|kv| !kv.ends_with("=none") && *kv != "-").map(|kv| if kv.starts_with("ae=") { kv } else { kv.split('=').next().unwrap_or("") }).collect();
                         rep.sig(&format!("{}|{}|{}|{}|{}", MOUNTS[mi].prefix, classes.join("+"), rshape, present.join("+"), outcome));
                     }
                 }
@@ -1415,17 +1718,18 @@ fn run_phases(rn: &mut Runner<'_>, rep: &mut Reporter) {
 
     // ---- Phase A: path enumeration, no headers
     // (alphabet, depth, mounts) levels; every sequence of exactly that length
-    let all_mounts: Vec<usize> = (0..MOUNTS.len()).collect();
+    // without Accept-Encoding the `try_compressed` mounts behave like plain ones: they get their own phase
+    let all_mounts: Vec<usize> = PLAIN_MOUNTS.to_vec();
     let mut levels: Vec<(&[&str], usize, Vec<usize>)> = vec![
         (SEGS, 1, all_mounts.clone()),
         (SEGS, 2, all_mounts.clone()),
-        (SEGS, 3, if ctx.thorough() { all_mounts.clone() } else { vec![0, 1] }),
-        (SEGS_CORE, 4, if ctx.thorough() { all_mounts.clone() } else { vec![0, 4] }),
+        (SEGS, 3, if ctx.thorough() { all_mounts.clone() } else { vec![M_STATIC, M_HID] }),
+        (SEGS_CORE, 4, if ctx.thorough() { all_mounts.clone() } else { vec![M_STATIC, M_ROOT] }),
         (SEGS_MIN, 5, all_mounts.clone()),
     ];
     if ctx.thorough() {
-        levels.push((SEGS, 4, vec![0, 1]));
-        levels.push((SEGS_CORE, 5, vec![1, 3]));
+        levels.push((SEGS, 4, vec![M_STATIC, M_HID]));
+        levels.push((SEGS_CORE, 5, vec![M_HID, M_LIST]));
     }
     let mut complete = true;
     'a: for (alpha, depth, mounts) in &levels {
@@ -1448,7 +1752,7 @@ fn run_phases(rn: &mut Runner<'_>, rep: &mut Reporter) {
                     c /= a;
                 }
                 let path = format!("{}/{}", MOUNTS[mi].prefix, segs.join("/"));
-                if code == 1234 && mi == 0 {
+                if code == 1234 && mi == M_STATIC {
                     rep.sample("path-case", json!({"path": path}));
                 }
                 rn.push(Case { path, headers: vec![], label: "-".into(), phase: "paths" }, rep);
@@ -1538,6 +1842,117 @@ fn run_phases(rn: &mut Runner<'_>, rep: &mut Reporter) {
     }
     rn.flush(rep);
     rep.exhaustive("conditional grid: 7 If-Match x 7 If-None-Match x 7 If-Unmodified-Since x 7 If-Modified-Since x 4 Range x 5 If-Range", complete);
+
+    // ---- Phase E: pre-compressed variants (`try_compressed` mounts) × Accept-Encoding
+    let aes = ae_opts();
+    let cmp_mounts = [M_CMP, M_CIDX, M_CHID];
+    // (depth, mounts, all Accept-Encoding variants?)
+    let mut elevels: Vec<(usize, Vec<usize>, bool)> = vec![(1, cmp_mounts.to_vec(), true), (2, cmp_mounts.to_vec(), true), (3, vec![M_CMP], false)];
+    if ctx.thorough() {
+        elevels.push((3, cmp_mounts.to_vec(), true));
+        elevels.push((4, vec![M_CMP, M_CIDX], false));
+    }
+    let mut complete = true;
+    'e: for (depth, mounts, full) in &elevels {
+        let a = SEGS_CMP.len() as u64;
+        let total = a.pow(*depth as u32);
+        for &mi in mounts {
+            for (lab, ae) in aes.iter().filter(|(l, _)| *full || AE_CORE.contains(l)) {
+                for code in 0..total {
+                    idx += 1;
+                    if !ctx.mine(idx) {
+                        continue;
+                    }
+                    if idx % 4096 < ctx.nshards && ctx.out_of_time() {
+                        complete = false;
+                        break 'e;
+                    }
+                    let mut c = code;
+                    let mut segs = Vec::with_capacity(*depth);
+                    for _ in 0..*depth {
+                        segs.push(SEGS_CMP[(c % a) as usize]);
+                        c /= a;
+                    }
+                    let path = format!("{}/{}", MOUNTS[mi].prefix, segs.join("/"));
+                    let headers: Vec<(String, String)> = ae.iter().map(|v| ("Accept-Encoding".to_string(), v.to_string())).collect();
+                    if code == 7 && mi == M_CMP && *lab == "several" {
+                        rep.sample("compressed-case", json!({"path": path, "headers": headers}));
+                    }
+                    rn.push(Case { path, headers, label: format!("ae={lab}"), phase: "compressed-paths" }, rep);
+                }
+            }
+        }
+    }
+    // the mount point itself, with and without a trailing slash
+    for &mi in &cmp_mounts {
+        for (lab, ae) in &aes {
+            for tail in ["", "/", "//", "/sub/.."] {
+                idx += 1;
+                if !ctx.mine(idx) {
+                    continue;
+                }
+                let headers: Vec<(String, String)> = ae.iter().map(|v| ("Accept-Encoding".to_string(), v.to_string())).collect();
+                rn.push(Case { path: format!("{}{tail}", MOUNTS[mi].prefix), headers, label: format!("ae={lab}"), phase: "compressed-paths" }, rep);
+            }
+        }
+    }
+    rn.flush(rep);
+    rep.exhaustive(
+        &format!(
+            "pre-compressed: all segment sequences over {} segments x Accept-Encoding: depth<=2 x 3 mounts x {} variants, depth 3 {}",
+            SEGS_CMP.len(),
+            aes.len(),
+            if ctx.thorough() { "x 3 mounts x all variants, depth 4 x 2 mounts x 7 variants" } else { "x 1 mount x 7 variants" }
+        ),
+        complete,
+    );
+    // Range grid and a conditional grid answered from a variant
+    let mut complete = true;
+    'f: for (path, ae, vrel) in [("/cmp/a.txt", "gzip", "a.txt.gz"), ("/cmp/big.bin", "gzip, *;q=0", "big.bin.gz"), ("/cmp/empty.bin", "zstd", "empty.bin.zst"), ("/cidx/sub/", "br", "sub/index.html.br")] {
+        let len = INSIDE.iter().find(|f| f.0 == vrel).unwrap().2 as u64;
+        for h in range_headers(len) {
+            idx += 1;
+            if !ctx.mine(idx) {
+                continue;
+            }
+            if idx % 512 < ctx.nshards && ctx.out_of_time() {
+                complete = false;
+                break 'f;
+            }
+            rn.push(
+                Case { path: path.to_string(), headers: vec![("Accept-Encoding".into(), ae.to_string()), ("Range".into(), h)], label: "ae=variant".into(), phase: "compressed-range-grid" },
+                rep,
+            );
+        }
+    }
+    let vtags: Vec<(&str, Option<String>)> = tag_opts().into_iter().map(|(l, v)| (l, v.map(|s| s.replace(ETAG, "{ETAG.gz}")))).collect();
+    let vdates: Vec<(&str, Option<String>)> = date_opts().into_iter().filter(|(l, _)| matches!(*l, "none" | "lm-1" | "lm")).collect();
+    for (lim, im) in &vtags {
+        for (linm, inm) in &vtags {
+            for (lius, ius) in &vdates {
+                for (lims, ims) in &vdates {
+                    for (lr, rg) in [("none", None), ("sat", Some("bytes=20-29".to_string()))] {
+                        for (lir, ir) in [("none", None), ("etag", Some("{ETAG.gz}".to_string())), ("plain-etag", Some(ETAG.to_string()))] {
+                            idx += 1;
+                            if !ctx.mine(idx) {
+                                continue;
+                            }
+                            let mut headers = vec![("Accept-Encoding".to_string(), "gzip".to_string())];
+                            for (n, v) in [("If-Match", im), ("If-None-Match", inm), ("If-Unmodified-Since", ius), ("If-Modified-Since", ims), ("Range", &rg), ("If-Range", &ir)] {
+                                if let Some(v) = v {
+                                    headers.push((n.to_string(), v.clone()));
+                                }
+                            }
+                            let label = format!("im={lim},inm={linm},ius={lius},ims={lims},r={lr},ir={lir},ae=variant");
+                            rn.push(Case { path: "/cmp/a.txt".into(), headers, label, phase: "compressed-cond-grid" }, rep);
+                        }
+                    }
+                }
+            }
+        }
+    }
+    rn.flush(rep);
+    rep.exhaustive("pre-compressed: range grid on 4 variants (lengths 30, 70000, 0, 34) and 7x7x3x3x2x3 conditional grid answered from a.txt.gz", complete);
 
     // ---- Phase D: random paths × ranges × conditionals
     let n = ctx.share(160_000, 1_600_000);
